@@ -168,7 +168,7 @@ int xmp_set_position(xmp_context opaque, int pos)
 	if (ctx->state < XMP_STATE_PLAYING)
 		return -XMP_ERROR_STATE;
 
-	if (pos >= m->mod.len)
+	if (pos < 0 || pos >= m->mod.len)
 		return -XMP_ERROR_INVALID;
 
 	set_position(ctx, pos, 0);
